@@ -105,7 +105,7 @@ class Interp:
     def __init__(self, src, env, max_steps=200000, max_effects=200, modules=None, perturb=False):
         self.tree = ast.parse(src) if isinstance(src, str) else src
         self.env = env
-        # perturb: every non-integral value of a constant subexpression is moved by one unit in the last place.
+        # perturb (signed number of ulps): every non-integral value of a constant subexpression is moved by that much.
         # The transpiler prints folded values with 16 significant digits; the distance between this run and the
         # plain one tells how far such a rounding can carry in THIS program (conditioning of the trace).
         self.perturb = perturb
@@ -422,16 +422,48 @@ class Interp:
             elif isinstance(e, ast.Call):
                 c = isinstance(e.func, ast.Name) and e.func.id not in self.funcs and not e.keywords and bool(e.args) and all(self._syntactic_constant(x) for x in e.args)
             elif isinstance(e, ast.Name):
-                c = e.id in ("pi", "tau", "rgas")
+                c = e.id in ("pi", "tau", "rgas") or e.id in self._single_constants()
             else:
                 c = False
             self._constexpr_cache[k] = c
         return c
 
+    def _single_constants(self):
+        """names bound exactly once in the whole text, by a plain assignment of a syntactically constant expression
+        (the transpiler propagates such variables as constants)"""
+        sc = getattr(self, "_sc", None)
+        if sc is None:
+            stores = {}
+            cands = {}
+            trees = [self.tree] + [t for t in (getattr(self, "_module_trees", None) or [])]
+            for t in trees:
+                for n in ast.walk(t):
+                    if isinstance(n, ast.Name) and isinstance(n.ctx, (ast.Store, ast.Del)):
+                        stores[n.id] = stores.get(n.id, 0) + 1
+                    elif isinstance(n, ast.arg):
+                        stores[n.arg] = stores.get(n.arg, 0) + 2
+                    elif isinstance(n, ast.AugAssign) and isinstance(n.target, ast.Name):
+                        stores[n.target.id] = stores.get(n.target.id, 0) + 1
+                    if isinstance(n, ast.Assign) and len(n.targets) == 1 and isinstance(n.targets[0], ast.Name):
+                        cands.setdefault(n.targets[0].id, []).append(n.value)
+            self._sc = sc = set()
+            # iterate: K2 = K1 * 2 is constant once K1 is
+            for _ in range(4):
+                before = len(sc)
+                for k, vals in cands.items():
+                    if k not in sc and stores.get(k, 0) == 1 and len(vals) == 1:
+                        self._constexpr_cache.clear()
+                        if self._syntactic_constant(vals[0]):
+                            sc.add(k)
+                if len(sc) == before:
+                    break
+            self._constexpr_cache.clear()
+        return sc
+
     def ev(self, e, loc, gl, G, F):
         v = self._ev(e, loc, gl, G, F)
         if self.perturb and isinstance(v, float) and type(e) in (ast.BinOp, ast.Call, ast.UnaryOp, ast.Constant) and v == v and abs(v) != math.inf and v != int(v) and self._syntactic_constant(e):
-            v = v * (1.0 + 2.0**-52)
+            v = v * (1.0 + float(self.perturb) * 2.0**-52)
         return v
 
     def _ev(self, e, loc, gl, G, F):
